@@ -52,6 +52,7 @@ def op_st():
         st.just({"op": "clear"}),
         st.tuples(st.booleans(), st.sampled_from([None, True, False])).map(lambda t: {"op": "export-import", "merge": t[0], "cb": t[1]}),
         st.just({"op": "new-client"}),
+        st.just({"op": "use-context"}),
         hp.map(lambda t: {"op": "get-tofu-off", "hp": list(t)}),
         st.tuples(hp, st.sampled_from([1, 1, 1, 2, 3, 4]), st.sampled_from(["get", "upload"])).map(lambda t: {"op": "get-dbfault", "hp": list(t[0]), "n": t[1], "kind": t[2]}),
     )
@@ -75,6 +76,7 @@ def enum_small(tier):
         for k in ("ec-a", "ec-b", "hostile-bool"):
             alphabet.append({"op": "rotate", "hp": hp, "cert": k})
     alphabet.append({"op": "clear"})
+    alphabet.append({"op": "use-context"})
     for n in range(1, L + 1):
         for seq in itertools.product(alphabet, repeat=n):
             # prune: histories without any fetch are uninteresting
@@ -348,6 +350,10 @@ def run_history(case: dict):
                 db.import_toml(f, merge=op["merge"], on_conflict=cb)
             elif o == "new-client":
                 client = GeminiClient(timeout=10, tofu_db_path=dbpath)
+            elif o == "use-context":
+                # the long-lived client object goes through an `async with` block and is used again afterwards
+                async with client:
+                    pass
             t = table()
             if t != model:
                 extra = {k: v[:20] for k, v in t.items() if model.get(k) != v}
@@ -361,6 +367,68 @@ def run_history(case: dict):
         import shutil
 
         shutil.rmtree(d, ignore_errors=True)
+
+
+def enum_events(tier):
+    yield {"event": "busy-open", "kind": "get"}
+    yield {"event": "busy-open", "kind": "upload"}
+
+
+def run_event(case: dict):
+    """The store is locked by another connection (longer than SQLite's busy timeout) while a new client starts up; later
+    the pinned host presents another certificate."""
+    setup_logging()
+    import sqlite3
+
+    from nauyaca.client.session import GeminiClient
+    from nauyaca.security.tofu import CertificateChangedError, TOFUDatabase
+
+    d = scratch.subdir("c03-ev")
+    dbpath = Path(d) / "tofu.db"
+    state = {hp: "ec-a" for hp in itertools.product(HOSTS, PORTS)}
+
+    async def scenario(loop):
+        net = memnet.MemNet()
+        net.install(loop)
+        _peers(net, state)
+        first = GeminiClient(timeout=10, tofu_db_path=dbpath)
+        r = await first.get("gemini://h1:1965/x")
+        assert r.status == 20
+        pinned = {(x["hostname"], x["port"]): x["fingerprint"] for x in TOFUDatabase(dbpath).list_hosts()}
+        holder = sqlite3.connect(str(dbpath), isolation_level=None)
+        holder.execute("BEGIN EXCLUSIVE")
+        second, err = None, None
+        try:
+            second = GeminiClient(timeout=10, tofu_db_path=dbpath)   # about 5 s of real time
+        except Exception as e:
+            err = repr(e)
+        holder.execute("ROLLBACK")
+        holder.close()
+        net.peers[("h1", 1965)].set_cert(certs.get("ec-b"))
+        cl = second or GeminiClient(timeout=10, tofu_db_path=dbpath)
+        try:
+            r2 = await (cl.get("gemini://h1:1965/x") if case["kind"] == "get" else cl.upload("gemini://h1:1965/x", b"data", token="t"))
+            res = ("ok", r2.status)
+        except CertificateChangedError:
+            res = ("changed",)
+        except Exception as e:
+            res = ("exc", type(e).__name__)
+        after = {(x["hostname"], x["port"]): x["fingerprint"] for x in TOFUDatabase(dbpath).list_hosts()}
+        return pinned, err, res, after
+
+    try:
+        pinned, err, res, after = vloop.run(scenario, horizon=1e6)
+    finally:
+        import shutil
+
+        shutil.rmtree(d, ignore_errors=True)
+    info = {"open_error": err, "fetches": 2, "mismatch_fetches": 1}
+    if res[0] == "ok":
+        return viol("changed-certificate-accepted", f"h1:1965 was pinned ({pinned}); a second client was started while the store was locked "
+                    f"({err}); afterwards the host presented another certificate and the call returned {res}; store now {after}", why="after-busy-open", **info)
+    if after != pinned:
+        return viol("trust-store-differs-from-model", f"pins before {pinned}, after {after}", **info)
+    return ok(**info)
 
 
 def _nontrivial(case, v):
@@ -380,6 +448,9 @@ def _bucket(case, v):
 
 
 LANES = [
+    Lane(name="store-events", run_case=run_event, enumerate=enum_events, budget={"quick": 1, "thorough": 1},
+         shards={"quick": 2, "thorough": 2}, nontrivial=lambda c, v: True, labels=lambda c, v: [c["event"], c["kind"]], exhaustive=True,
+         rule="a client starts up while the store is locked beyond SQLite's busy timeout; the pinned host then changes its certificate"),
     Lane(name="small-scope", run_case=run_history, enumerate=enum_small, budget={"quick": 1, "thorough": 1},
          shards={"quick": 16, "thorough": 64}, nontrivial=_nontrivial, labels=_labels, bucket=_bucket, exhaustive=True,
          rule="all histories of length <= 3 (quick) / 4 (thorough) over 2 hosts x 3 certificates x {get, upload, rotate, revoke, clear}"),
